@@ -166,26 +166,27 @@ Theorem C02_tidy_remove_preserves_trace_stage2 : forall bi ns p, u2_block p = tr
 Proof. exact tidy_remove_preserves_trace_stage2. Qed.
 Print Assumptions C02_tidy_remove_preserves_trace_stage2.
 (* the same with the report fix_unused_and_missing_imports computes (parse_docstrings=True) and the trace that includes
-   doctest examples (a stage-2 program has no docstring statement) *)
+   doctest examples (the docstring / string statements of a stage-2 program hold no doctest example and no {brace}
+   identifier, so the two reports and the two traces coincide) *)
 Theorem C02_tidy_fix_preserves_trace_stage2 : forall bi ns p, u2_block p = true -> star_free bi ns = true ->
   imports_once bi ns p = true -> NoDup (imp_events (bsrcs_block false p)) ->
   pysem_doc bi ns (remove_top (in_report (snd (finder_doc bi ns p))) p) = pysem_doc bi ns p.
 Proof. exact tidy_fix_preserves_trace_stage2. Qed.
 Print Assumptions C02_tidy_fix_preserves_trace_stage2.
 
-(* what fragment 2 excludes (beyond F34 / F31 / duplicate items above), one witness each *)
+(* what fragment 2 excludes (beyond F34 / F31 / duplicate items above) *)
 Local Open Scope N_scope.
-(* a function-local import used only by a nested function defined before it: the nested read is deferred, and f's
-   scope is popped - its unused checkers reported - before the deferred checks run
+(* C05a (repaired, fixes/C05a-local-import-deferred-unused-check.diff): a function-local import used only by a nested function
+   defined before it - the unused imports of a scope that is left are now reported after the deferred load checks
      def f():
          def g(): return os
          import os
          g()                                                                                        *)
 Definition W_local_import : program :=
   [SDef 1 90 [] P0 None [SDef 2 91 [] P0 None [SExpr 3 (ELoad 92 [])]; SImport 4 [([92], None)]; SExpr 5 (EOp [ELoad 91 []])]].
-Theorem C02_unused_sound_refuted_local_import : ~ unused_sound_at W_local_import.
-Proof. unfold unused_sound_at. intro H. apply (H 4%nat ([92], [92])) with (ln := 3%nat) (n := 92); vm_compute; auto. Qed.
-Print Assumptions C02_unused_sound_refuted_local_import.
+Example C02_C05a_repaired : snd (finder [] [[]] true W_local_import) = [] /\
+  In (3%nat, 92, Bound (BImp 4 ([92], [92]))) (pysem [] [[]] W_local_import).
+Proof. vm_compute. auto. Qed.
 (* an import that shadows a builtin / namespace name, read in a function defined before it (F34 with the first binding
    coming from the namespace):   def f(): len.x ; import m as len                                   *)
 Definition W_shadow_builtin : program := [SDef 1 90 [] P0 None [SExpr 2 (ELoad 93 [94])]; SImport 3 [([95], Some 93)]].
@@ -212,3 +213,49 @@ Example C02_nonvacuous_stage2 :
      SImportFrom 5 [106] []; SExpr 6 (ELoad 105 [])] /\
   pysem [] [[]] P_u2 = [(2%nat, 101, Bound (BImp 3 ([103], [101]))); (6%nat, 105, Bound (BImp 4 ([104], [105])))].
 Proof. vm_compute. repeat split. Qed.
+
+
+(* ---------- stage 3: comprehensions ---------- *)
+(* Fragment.u3_block: fragment 2 with comprehensions (stage-3 statements: a comprehension wherever an expression may stand,
+   nested, in function and lambda bodies; inside a comprehension no lambda, no nested scope in its first iterable) *)
+Theorem C02_unused_sound_stage3 : forall bi ns p, u3_block p = true -> star_free bi ns = true ->
+  imports_once bi ns p = true -> NoDup (imp_events (bsrcs_block false p)) ->
+  forall l i, In (l, i) (snd (finder bi ns true p)) ->
+  forall ln n, ~ In (ln, n, Bound (BImp l i)) (pysem bi ns p).
+Proof. exact u3_unused_sound. Qed.
+Print Assumptions C02_unused_sound_stage3.
+Theorem C02_tidy_remove_preserves_trace_stage3 : forall bi ns p, u3_block p = true -> star_free bi ns = true ->
+  imports_once bi ns p = true -> NoDup (imp_events (bsrcs_block false p)) ->
+  pysem bi ns (tidy_remove bi ns p) = pysem bi ns p /\
+  forall x b, lookup_b x (final_globals bi ns p) = Some b -> removed_src (in_report (snd (finder bi ns true p))) b = false ->
+              lookup_b x (final_globals bi ns (tidy_remove bi ns p)) = Some b.
+Proof. exact tidy_remove_preserves_trace_stage3. Qed.
+Print Assumptions C02_tidy_remove_preserves_trace_stage3.
+Theorem C02_tidy_fix_preserves_trace_stage3 : forall bi ns p, u3_block p = true -> star_free bi ns = true ->
+  imports_once bi ns p = true -> NoDup (imp_events (bsrcs_block false p)) ->
+  pysem_doc bi ns (remove_top (in_report (snd (finder_doc bi ns p))) p) = pysem_doc bi ns p.
+Proof. exact tidy_fix_preserves_trace_stage3. Qed.
+Print Assumptions C02_tidy_fix_preserves_trace_stage3.
+
+(* non-vacuity of stage 3:
+     import m as a         line 1
+     import n as b         line 2: unused
+     def f(t): return [a.x + u for u in t]      lines 3-4: a read inside a comprehension inside a function
+     [v for v in c if v]   line 5: c is imported later: the module-level read is a NameError, not a use
+     import q as c         line 6: unused                                                       *)
+Definition P_u3 : program :=
+  [SImport 1 [([130], Some 131)]; SImport 2 [([132], Some 133)];
+   SDef 3 134 [] (Params [] [(135, None)] None [] None [] []) None
+     [SExpr 4 (EComp [Gen (ELoad 135 []) (TName 136) []] [EOp [ELoad 131 [137]; ELoad 136 []]])];
+   SExpr 5 (EComp [Gen (ELoad 138 []) (TName 139) [ELoad 139 []]] [ELoad 139 []]);
+   SImport 6 [([140], Some 138)]].
+Example C02_nonvacuous_stage3 :
+  u3_block P_u3 = true /\ u2_block P_u3 = false /\ imports_once [] [[]] P_u3 = true /\
+  snd (finder [] [[]] true P_u3) = [(2%nat, ([132], [133])); (6%nat, ([140], [138]))] /\
+  In (4%nat, 131, Bound (BImp 1 ([130], [131]))) (pysem [] [[]] P_u3) /\ In (5%nat, 138, Unbound) (pysem [] [[]] P_u3).
+Proof. vm_compute. repeat split; auto 20. Qed.
+
+(* docstrings without doctest examples are inside the fragments *)
+Example C02_plain_docstring_in_fragment :
+  u3_block [SDoc 1 [] []; SImport 2 [([150], None)]; SDef 3 151 [] P0 None [SDoc 4 [] []; SExpr 5 (ELoad 150 [152])]] = true.
+Proof. reflexivity. Qed.
